@@ -702,10 +702,11 @@ class ModuleNormaliser:
                         walk(h.body)
                 if isinstance(s, ast.Assign) and len(s.targets) == 1 and isinstance(s.targets[0], ast.Tuple) and \
                         isinstance(s.value, ast.Tuple) and len(s.value.elts) == len(s.targets[0].elts) and \
-                        all(isinstance(t, ast.Name) for t in s.targets[0].elts) and \
+                        all(isinstance(t, ast.Name) or (isinstance(t, ast.Attribute) and isinstance(t.value, ast.Name))
+                            for t in s.targets[0].elts) and \
                         not any(isinstance(e, ast.Starred) for e in s.value.elts):
-                    tn = {t.id for t in s.targets[0].elts}
-                    used = {x.id for e in s.value.elts for x in ast.walk(e) if isinstance(x, ast.Name)}
+                    tn = {U(t) for t in s.targets[0].elts}
+                    used = {U(x) for e in s.value.elts for x in ast.walk(e) if isinstance(x, (ast.Name, ast.Attribute))}
                     if not (tn & used) and len(tn) == len(s.targets[0].elts) and all(self.pure(e) for e in s.value.elts):
                         new = []
                         for t, e in zip(s.targets[0].elts, s.value.elts):
